@@ -24,7 +24,7 @@ struct KeyDef {
   std::vector<Dyn> dyns;           // request inputID = statics.size() + index
   std::vector<int> leafCandidates; // input keys this key may read directly and report as discovered
   unsigned discoverCount = 0;
-  std::vector<int> discKeys;       // C07 only: computed keys reported as discovered dependencies at completion; their value is not read
+  std::vector<int> discKeys;       // computed keys reported as discovered dependencies at completion; their value is not read
   unsigned modulus = 0;            // 0: full hash; else value = hash % modulus (identical recomputes are common)
   bool forceChange = false;
   bool hasExtOut = false;
@@ -140,7 +140,7 @@ struct GenOptions {
   unsigned minKeys = 3, maxKeys = 10;
   bool hostileNames = false, hostileValues = false, largeValues = false;
   bool allowCycles = false;     // C07: requests may point anywhere
-  bool discoverComputed = false; // C07: a task may report a computed key (any, also one that depends on it) as a discovered dependency
+  bool discoverComputed = true;  // a task may report a computed key as a discovered dependency (value not read): a lower-indexed one, or with allowCycles any key, also one that depends on it
   bool singleUse = true, mustFollow = true, discovered = true, dynamic = true, extOut = true, forceChange = true;
   unsigned modulusNum = 1, modulusDen = 3;   // share of keys whose value is reduced modulo a small number (identical recomputes)
   unsigned oddModeWeight = 1;                 // weight (out of 10, per kind) of single-use and must-follow requests
@@ -205,7 +205,7 @@ inline Program generate(vf::Rng& r, const GenOptions& o) {
       if (!k.leafCandidates.empty()) k.discoverCount = 1 + (unsigned)r.below(std::min<size_t>(2, k.leafCandidates.size()));
     }
     if (o.discoverComputed && r.chance(1, 4)) {
-      std::vector<int> cc; for (size_t q = 0; q < p.keys.size(); ++q) if (!p.keys[q].isInput && p.keys[q].name != k.name) cc.push_back((int)q);
+      std::vector<int> cc; for (size_t q = 0; q < p.keys.size(); ++q) if (!p.keys[q].isInput && q != i && (o.allowCycles || q < i)) cc.push_back((int)q);
       if (!cc.empty()) { k.discKeys.push_back(r.pick(cc)); if (cc.size() > 1 && r.chance(1, 3)) { int y = r.pick(cc); if (y != k.discKeys[0]) k.discKeys.push_back(y); } }
     }
     if (r.chance(o.modulusNum, o.modulusDen)) k.modulus = 1 + (unsigned)r.below(3);
